@@ -24,7 +24,9 @@ from sim.core.seams import Seams
 MARKUP = '<b id=simx>&"\'</b>'
 MSGS = {'plain': 'division by zero', 'markup': 'bad ' + MARKUP + ' value', 'template': '{tb_str} {#mon_files}{.}{/mon_files} {~lb}',
         'nonascii': 'défaut ☃ 中文', 'colon': 'a: b: c', 'multiline': 'line one\nline two\n  indented', 'empty': '',
-        'percent': '100%s %(x)d', 'long': 'm' * 3000, 'trailing-tab': 'bad separator \t', 'trailing-spaces': 'ends in blanks   ', 'leading-space': ' starts with a blank', 'very-long': 'first words ' + 'v' * 9000 + ' last words', 'exactly-4096': 'x' * 4096, 'around-4k': 'begin ' + 'y' * 4085, 'ignored': 'job 7 ignored', 'exception-word': 'Exception ignored'}
+        'percent': '100%s %(x)d', 'long': 'm' * 3000, 'trailing-tab': 'bad separator \t', 'trailing-spaces': 'ends in blanks   ', 'leading-space': ' starts with a blank', 'very-long': 'first words ' + 'v' * 9000 + ' last words', 'exactly-4096': 'x' * 4096, 'around-4k': 'begin ' + 'y' * 4085, 'ignored': 'job 7 ignored', 'exception-word': 'Exception ignored',
+        # template syntax that is NOT balanced (round 14: the balanced one above still parses when spliced into a template source)
+        'template-open-block': "'{#items}'", 'template-stray-close': 'no {/items} and {:else} here {?x}'}
 EXCS = ['Exception', 'Exception', 'ZeroDivisionError', 'ValueError', 'KeyError', 'ImportError', 'ModuleNotFoundError', 'AttributeError', 'NameError',
         'TypeError', 'RuntimeError', 'OSError', 'UnicodeDecodeError', 'RecursionError', 'CustomError', 'LocalError', 'DashModuleError']
 FILES = ['/app/main.py', '/app/pkg/<b id=simx>.py', '/app/ünï.py', '/app/a&b.py', '/app/{tmpl}.py', '/app/' + 'd' * 300 + '.py',
